@@ -235,6 +235,10 @@ def step (st : DSt) (line : String) : DSt × List String :=
   | ["mon-c06"] =>
     if st.tBad then (st, ["bad-op"])
     else (st, verdict (Afkak.Monitor.C06.firstBad Afkak.Monitor.C06.MSt.init 0 (fixTr st.tr)))
+  | ["mon-c06r"] =>
+    if st.tBad then (st, ["bad-op"])
+    else (st, verdict (Afkak.Monitor.C06.rFirstBad Afkak.Monitor.C06.RSt.init 0 (fixTr st.tr)))
+  | ["mon-model-c06r"] => (st, verdict (Afkak.Monitor.C06.rFirstBad Afkak.Monitor.C06.RSt.init 0 st.bcTr.reverse))
   | ["mon-c10"] =>
     if st.tBad then (st, ["bad-op"])
     else (st, verdict (Afkak.Monitor.C10.firstBad (BC.policyOf st.tPolicy) (Afkak.Monitor.C10.MSt.init st.tHost st.tPort) 0 (fixTr st.tr)))
